@@ -125,6 +125,9 @@ def run(ctx):
     boundary = Set1([("k16383", L.gen_content(rng, "random", 16383)), ("k16384", L.gen_content(rng, "random", 16384)),
                      ("k16385", L.gen_content(rng, "random", 16385))], 3)
     sets.append(boundary)
+    # files + volumes = 256, the most the format allows: the highest-numbered volume must still be looked for
+    full = Set1([("m%03d" % k, bytes([k & 255, (k * 7) & 255, 1])) for k in range(250)], 6)
+    sets.append(full)
     create_all(ctx, vh, model, sets, report)
     cases = []
     if boundary.created is not None:
